@@ -48,13 +48,24 @@ fn core_on<'a>(t: &'a mut SteelThread, sp: usize, instr: RootedInstructions) -> 
 #[kani::proof]
 #[kani::unwind(7)]
 fn tail_call_closure_contract() {
+    tail_call_closure_check(0);
+    tail_call_closure_check(1);
+}
+
+#[kani::proof]
+#[kani::unwind(7)]
+fn tail_call_closure_two_contract() {
+    tail_call_closure_check(2);
+}
+
+fn tail_call_closure_check(passed: usize) {
     let (stack, vals) = any_stack();
     let arity: u16 = kani::any();
     kani::assume(arity <= 2);
-    let passed: usize = kani::any();
-    kani::assume(passed <= 2);
-    let fsp: usize = kani::any();
-    kani::assume(fsp <= L - passed);
+    // frame pointer: directly below the arguments, or with caller temporaries in between
+    let gap: u8 = kani::any();
+    kani::assume(gap <= 2);
+    let fsp: usize = L - passed - gap as usize;
     let older: usize = kani::any();
     kani::assume(older < 1_000_000_000);
     let current = lambda(1, false, 1);
@@ -137,13 +148,23 @@ fn rest_args_check(passed: usize) {
 #[kani::proof]
 #[kani::unwind(7)]
 fn tco_jump_contract() {
+    tco_jump_check(0);
+    tco_jump_check(1);
+}
+
+#[kani::proof]
+#[kani::unwind(7)]
+fn tco_jump_two_contract() {
+    tco_jump_check(2);
+}
+
+fn tco_jump_check(passed: u32) {
     let (stack, vals) = any_stack();
     let arity: u16 = kani::any();
     kani::assume(arity <= 2);
-    let passed: u32 = kani::any();
-    kani::assume(passed <= 2);
-    let fsp: usize = kani::any();
-    kani::assume(fsp <= L - passed as usize);
+    let gap: u8 = kani::any();
+    kani::assume(gap <= 2);
+    let fsp: usize = L - passed as usize - gap as usize;
     let me = lambda(arity, false, 5);
     let mut t = thread_with(stack, fsp, me.clone(), 3);
     // current instruction: TCOJMP <passed>
